@@ -20,7 +20,7 @@ from ..report import Report, Violation
 from ..runs import describe_path, run_function
 from ..scenarios import MUTATOR_OF, recv_sym
 from ..values import ARG, CLS, FRESH, IMM, RECV, Const, Sym, vrepr
-from .base import get_ctx, pmap, walk_own
+from .base import get_ctx, pmap, site_allowed, walk_own
 
 META = {
     "assumptions": ["check_type itself is correct (C15)", "declared defaults conform to their annotations",
@@ -265,7 +265,7 @@ def _check_main(ctx, rep: Report):
                 if ("__setattr__" in f and ("__raw__" in f or f.startswith("object.") or f.startswith("super()"))) \
                         or (f.startswith("getattr(") and "__raw__" in f and "__setattr__" in f):
                     nraw += 1
-                    ok = short in RAW_ALLOWED
+                    ok = site_allowed(ctx, short, lambda s_: s_ in RAW_ALLOWED)
                     rep.oblige("C03.R", f"raw:{short}", ok)
                     if not ok:
                         rep.violate(Violation("C03.R", f"C03.R|raw|{short}", f"{short} performs a raw attribute write `{f}(...)` bypassing preparation, type check and invalidation",
@@ -278,7 +278,7 @@ def _check_main(ctx, rep: Report):
                             (isinstance(t, ast.Subscript) and isinstance(t.value, ast.Attribute) and t.value.attr == "__dict__"
                              and short.startswith("Alias")):
                         ndict += 1
-                        ok = short in DICT_STORE_ALLOWED
+                        ok = site_allowed(ctx, short, lambda s_: s_ in DICT_STORE_ALLOWED)
                         rep.oblige("C03.R", f"dict:{short}", ok)
                         if not ok:
                             rep.violate(Violation("C03.R", f"C03.R|dict|{short}", f"{short} stores into an instance __dict__ directly (`{ast.unparse(t)}`), bypassing the type check",
